@@ -340,7 +340,7 @@ pub fn gen_world(rng: &mut Rng, o: &GenOpts) -> CliWorld {
     let take = rng.range(1, cands.len().min(9));
     for t in cands.into_iter().take(take) {
       // now and then two instances of one template (two rules fixing the same node)
-      let copies = if rng.chance(0.12) { 2 } else { 1 };
+      let copies = if rng.chance(if o.fix_heavy { 0.25 } else { 0.12 }) { 2 } else { 1 };
       for c in 0..copies {
         let suffix = if c == 0 { String::new() } else { format!("-{c}") };
         specs.push(rules::instantiate(t, l, &suffix));
